@@ -50,6 +50,12 @@ CHECKS = {
          "store; on the model: allocation monotonic, bindings write-once (C16_fresh), history/frame theorem in "
          "props/C16.v when present",
          "4 C16", "Coq proof on the engine model (frame/freshness) + history differential testing"),
+ "C20": ("TypeUnion.add / Bag.add / the emitted containsType lines modelled branch by branch over a decidable order "
+         "instantiated with C01's is_subtype: union = exactly the minimal (maximal) inserted elements for every "
+         "insertion sequence and permutation; for every history and every up-set P the reduced bag and the emitted "
+         "pre-filter are satisfied iff every inserted requirement is; run against bag.py/query.types() of /repo with "
+         "all up-sets generated by <= 3 types as oracle",
+         "4 C20", "Coq proof by induction over insertion histories + correspondence + up-set oracle"),
  "C18": ("schedules proved to only permute the pending constraints; independence of the outcome is refuted for the "
          "error kind (C18_refuted, known finding) and otherwise searched exhaustively per case (all permutations at "
          "every re-check point, imposed on /repo through the guarded hook) with model/implementation agreement per "
